@@ -27,7 +27,7 @@ TSkip    == l <= Len(Log) /\ Log[l].ev \in Skipped /\ l' = l + 1 /\ UNCHANGED va
 TEnvPod  == IsEv("env_pod") /\ LET x == Log[l] IN EnvPod(x.p, [api |-> x.api, loc |-> x.loc, sticky |-> x.sticky, cached |-> x.cached])
 TDetach  == IsEv("env_detach") /\ EnvDetach(Log[l].e)
 TApiErr  == IsEv("env_apierr") /\ EnvApiErr(Log[l].on)
-TCloud   == IsEv("cl_end") /\ LET x == Log[l] IN IF x.e = 0 THEN UNCHANGED vars ELSE CloudEnd(x.k, x.e, Rng(x.as))
+TCloud   == IsEv("cl_end") /\ LET x == Log[l] IN IF x.e = 0 \/ x.err THEN UNCHANGED vars ELSE CloudEnd(x.k, x.e, Rng(x.as))   \* a failed call of the fake has no effect
 TCall    == IsEv("rpc_call") /\ LET x == Log[l] IN RpcCall(x.r, x.k, x.p, x.c)
 TGetPod  == IsEv("k8s_getpod") /\ LET x == Log[l] IN GetPod(x.r, x.found, x.sticky)
 TPutB    == IsEv("put_begin") /\ LET x == Log[l] IN PutBegin(x.p, RecOf(x))
@@ -55,6 +55,7 @@ ASSUME TLCSet(1, 0)
 InvC04 == OneWriter
 InvC05 == AckedExclusive
 InvC09 == GcAlone
+InvNone == TRUE      \* Enforce = {}: only the interface facts; a trace rejected even so is a harness problem, not a verdict
 NotAccepted == ~(l > Len(Log))
 Report == PrintT(<<"HIGHWATER", TLCGet(1)>>)
 =============================================================================
